@@ -45,17 +45,36 @@ def rejName : Rej → String
 def faultName : Fault → String
   | .uaf => "uaf" | .deadArena => "deadArena" | .crossThread => "crossThread" | .stuck => "stuck"
 
+/-- variables whose entry is INVALID when it goes out of scope (at the `exit` of the closure it was declared in, or
+    at the end of the program).  The calculus treats a variable that is never dropped as leaked; Rust drops it
+    implicitly, which is a use if its type has drop glue — the caller decides that (it knows the Rust types). -/
+def invalidAtEnds (t : Table) (fl : Flags) : SEnv → List Stmt → List Var
+  | Γ, [] => (Γ.ents.filter (fun e => !e.valid)).map (·.var)
+  | Γ, st :: rest =>
+    let here := match st with
+      | .exit _ => (Γ.ents.filter (fun e => e.depth == Γ.depth && !e.valid)).map (·.var)
+      | _ => []
+    match checkStmt t fl Γ st with
+    | .error _ => here
+    | .ok Γ' => here ++ invalidAtEnds t fl Γ' rest
+
+def runName (fl : Flags) (p : List Stmt) : String :=
+  match run fl DState.empty p with
+  | .ok _ => "ok"
+  | .error (k, f) => s!"fault:{faultName f}@{p.length - 1 - k}"
+
+/-- `<id> accept run=<outcome> inv=<v,v,…>` / `<id> reject <class> <statement> run=<outcome>`: the dynamic semantics is
+    evaluated on EVERY program (it does not depend on types): a program that faults must not compile -/
 def answerProg (id : String) (fl : Flags) (body : String) : String :=
   let stmts := (body.splitOn ";").map words |>.filter (· ≠ [])
   match stmts.mapM parseStmt with
   | none => s!"{id} parse-error"
   | some p =>
     match check Gen.Sigs.table fl SEnv.empty p with
-    | .error (k, r) => s!"{id} reject {rejName r} {p.length - 1 - k}"
+    | .error (k, r) => s!"{id} reject {rejName r} {p.length - 1 - k} run={runName fl p}"
     | .ok _ =>
-      match run fl DState.empty p with
-      | .ok _ => s!"{id} accept ok"
-      | .error (k, f) => s!"{id} accept fault:{faultName f}@{p.length - 1 - k}"
+      let inv := invalidAtEnds Gen.Sigs.table fl SEnv.empty p
+      s!"{id} accept run={runName fl p} inv={",".intercalate (inv.map toString)}"
 
 def b01 (s : String) : Bool := s == "1" || s == "true"
 
